@@ -362,4 +362,251 @@ theorem wfx_release {cfg : Cfg} {s : State} {ex : List Nat} {o : Nat} (w : WfX c
         · rw [getI_setI_other _ _ _ _ hi] at hy; rw [getI_setI_other _ _ _ _ hj] at hz
           exact w.bufDistinct i j y z hy hz hij hyl hzl
 
+/-! ### `incr` (take one more share) -/
+
+theorem incr_false {cfg : Cfg} {s s1 : State} {o : Nat} (h : incr cfg s o = (s1, false)) : s1 = s := by
+  unfold incr at h
+  split at h
+  · cases h; rfl
+  · split at h <;> cases h <;> rfl
+  · cases h; rfl
+
+theorem incr_true {cfg : Cfg} {s s1 : State} {o : Nat} (h : incr cfg s o = (s1, true)) :
+    cfg.backend ≠ .unique ∧ ∃ x, getI s o = some x ∧ x.count < cfg.ceil ∧
+      s1 = setI s o { x with count := x.count + 1 } := by
+  unfold incr at h
+  cases hb : cfg.backend <;> cases hx : getI s o <;> simp [hb, hx] at h
+  all_goals
+    rename_i x
+    by_cases hlt : x.count < cfg.ceil
+    · simp [hlt] at h
+      exact ⟨(by intro hu; cases hu), x, rfl, hlt, h.symm⟩
+    · simp [hlt] at h
+
+theorem wfx_incr {cfg : Cfg} {s s1 : State} {ex : List Nat} {o : Nat} (w : WfX cfg s ex)
+    (hlive : ∀ x, getI s o = some x → x.live = true)
+    (h : incr cfg s o = (s1, true)) : WfX cfg s1 (o :: ex) := by
+  obtain ⟨hnu, x, hx, hlt, rfl⟩ := incr_true h
+  have hl := hlive x hx
+  have hlen := getI_some_lt hx
+  refine { handles := ?_, held := ?_, counts := ?_, uniq := ?_, ceil := ?_, dead := ?_,
+           datacap := ?_, bufFresh := ?_, bufDistinct := ?_ }
+  · intro h' hd hg
+    simp only [getH_setI] at hg
+    have hok := w.handles h' hd hg
+    unfold HandleOk at hok ⊢
+    cases hrp : hd.repr with
+    | inline bs => rw [hrp] at hok; exact hok
+    | borrowed a b c => rw [hrp] at hok; simpa using hok
+    | heap ow pb off len =>
+      rw [hrp] at hok
+      by_cases hne : o = ow
+      · subst hne
+        obtain ⟨y, hy, hyl, hb, hr⟩ := hok
+        rw [hx] at hy; cases hy
+        exact ⟨_, getI_setI_same _ _ _ hlen, hyl, hb, hr⟩
+      · simpa [getI_setI_other _ _ _ _ hne] using hok
+  · intro i hi
+    by_cases hne : o = i
+    · subst hne; exact ⟨_, getI_setI_same _ _ _ hlen, hl⟩
+    · rcases List.mem_cons.mp hi with rfl | hi
+      · exact absurd rfl hne
+      · obtain ⟨y, hy, hyl⟩ := w.held i hi
+        exact ⟨y, by simpa [getI_setI_other _ _ _ _ hne] using hy, hyl⟩
+  · intro i y hy hyl
+    simp only [refsTo_setI]
+    rw [List.count_cons]
+    by_cases hne : o = i
+    · subst hne; rw [getI_setI_same _ _ _ hlen] at hy; cases hy
+      have := w.counts o x hx hl
+      simp only [beq_self_eq_true, if_true]; omega
+    · rw [getI_setI_other _ _ _ _ hne] at hy
+      have := w.counts i y hy hyl
+      have : (o == i) = false := by simpa using hne
+      simp_all
+  · intro hu; exact absurd hu hnu
+  · intro i y hy hyl
+    by_cases hne : o = i
+    · subst hne; rw [getI_setI_same _ _ _ hlen] at hy; cases hy; simp only; omega
+    · rw [getI_setI_other _ _ _ _ hne] at hy; exact w.ceil i y hy hyl
+  · intro i y hy hyd
+    simp only [refsTo_setI]
+    by_cases hne : o = i
+    · subst hne; rw [getI_setI_same _ _ _ hlen] at hy; cases hy
+      simp only at hyd; rw [hl] at hyd; cases hyd
+    · rw [getI_setI_other _ _ _ _ hne] at hy; exact w.dead i y hy hyd
+  · intro i y hy hyl
+    by_cases hne : o = i
+    · subst hne; rw [getI_setI_same _ _ _ hlen] at hy; cases hy; exact w.datacap o x hx hl
+    · rw [getI_setI_other _ _ _ _ hne] at hy; exact w.datacap i y hy hyl
+  · intro i y hy
+    simp only [nextBuf_setI]
+    by_cases hne : o = i
+    · subst hne; rw [getI_setI_same _ _ _ hlen] at hy; cases hy; exact w.bufFresh o x hx
+    · rw [getI_setI_other _ _ _ _ hne] at hy; exact w.bufFresh i y hy
+  · intro i j y z hy hz hij hyl hzl
+    by_cases hi : o = i
+    · subst hi
+      rw [getI_setI_same _ _ _ hlen] at hy; cases hy
+      rw [getI_setI_other _ _ _ _ hij] at hz
+      exact w.bufDistinct o j x z hx hz hij hl hzl
+    · by_cases hj : o = j
+      · subst hj
+        rw [getI_setI_same _ _ _ hlen] at hz; cases hz
+        rw [getI_setI_other _ _ _ _ hi] at hy
+        exact w.bufDistinct i o y x hy hx hij hyl hl
+      · rw [getI_setI_other _ _ _ _ hi] at hy; rw [getI_setI_other _ _ _ _ hj] at hz
+        exact w.bufDistinct i j y z hy hz hij hyl hzl
+
+/-- `incr` does not change what any handle reads -/
+theorem view_incr {cfg : Cfg} {s s1 : State} {o : Nat} {b : Bool} (h : incr cfg s o = (s1, b)) (hd : Handle) :
+    view s1 hd = view s hd := by
+  cases b with
+  | false => rw [incr_false h]
+  | true =>
+    obtain ⟨_, x, hx, _, rfl⟩ := incr_true h
+    have hlen := getI_some_lt hx
+    unfold view
+    cases hd.repr with
+    | inline bs => rfl
+    | borrowed a b c => rfl
+    | heap ow pb off len =>
+      by_cases hne : o = ow
+      · subst hne; simp [getI_setI_same _ _ _ hlen, hx]
+      · simp [getI_setI_other _ _ _ _ hne]
+
+/-! ### boxing a Vec: `boxVec`, `newHeap` -/
+
+theorem getI_append_lt (s : State) (x : Inner) (j : Nat) (hj : j < s.inners.length) :
+    getI { s with inners := s.inners ++ [x] } j = getI s j := by
+  simp [getI, List.getElem?_append_left hj]
+
+theorem getI_append_same (s : State) (x : Inner) :
+    getI { s with inners := s.inners ++ [x] } s.inners.length = some x := by
+  simp [getI]
+
+theorem getI_append_cases (s : State) (x : Inner) (j : Nat) (y : Inner)
+    (h : getI { s with inners := s.inners ++ [x] } j = some y) :
+    (j < s.inners.length ∧ getI s j = some y) ∨ (j = s.inners.length ∧ y = x) := by
+  by_cases hj : j < s.inners.length
+  · left; rw [getI_append_lt _ _ _ hj] at h; exact ⟨hj, h⟩
+  · right
+    have hlt := getI_some_lt h
+    simp at hlt
+    have : j = s.inners.length := by omega
+    subst this
+    rw [getI_append_same] at h; cases h; exact ⟨rfl, rfl⟩
+
+/-- Box a Vec whose buffer id is fresh w.r.t. every inner: the new inner is held locally. -/
+theorem wfx_boxVec {cfg : Cfg} {s : State} {ex : List Nat} (w : WfX cfg s ex)
+    (data : List UInt8) (cap buf : Nat) (hc : data.length ≤ cap) (hb : buf < s.nextBuf)
+    (hfresh : ∀ j y, getI s j = some y → y.live = true → y.buf ≠ buf) :
+    WfX cfg (boxVec s data cap buf).1 (s.inners.length :: ex) := by
+  unfold boxVec
+  simp only
+  have hnone : getI s s.inners.length = none := by simp [getI]
+  have hexlt : ∀ i, i ∈ ex → i < s.inners.length := by
+    intro i hi; obtain ⟨y, hy, _⟩ := w.held i hi; exact getI_some_lt hy
+  have hcount0 : ex.count s.inners.length = 0 := by
+    apply List.count_eq_zero.mpr
+    intro hm; have := hexlt _ hm; omega
+  have hrefs0 : refsTo s s.inners.length = 0 := by
+    unfold refsTo
+    apply List.countP_eq_zero.mpr
+    intro o ho hp
+    cases o with
+    | none => simp [pointsTo] at hp
+    | some hd =>
+      obtain ⟨k, hk, hke⟩ := List.getElem_of_mem ho
+      have hg : getH s k = some hd := by rw [getH_eq_getElem hk, hke]
+      have hok := w.handles k hd hg
+      unfold HandleOk at hok
+      cases hr : hd.repr with
+      | inline bs => cases hd; simp_all [pointsTo]
+      | borrowed a b c => cases hd; simp_all [pointsTo]
+      | heap ow pb off len =>
+        rw [hr] at hok
+        obtain ⟨y, hy, _⟩ := hok
+        have := getI_some_lt hy
+        cases hd; simp_all [pointsTo]
+  refine { handles := ?_, held := ?_, counts := ?_, uniq := ?_, ceil := ?_, dead := ?_,
+           datacap := ?_, bufFresh := ?_, bufDistinct := ?_ }
+  · intro h hd hg
+    have hg' : getH s h = some hd := hg
+    have hok := w.handles h hd hg'
+    unfold HandleOk at hok ⊢
+    cases hr : hd.repr with
+    | inline bs => rw [hr] at hok; exact hok
+    | borrowed a b c => rw [hr] at hok; exact hok
+    | heap ow pb off len =>
+      rw [hr] at hok
+      obtain ⟨y, hy, rest⟩ := hok
+      exact ⟨y, by rw [getI_append_lt _ _ _ (getI_some_lt hy)]; exact hy, rest⟩
+  · intro i hi
+    rcases List.mem_cons.mp hi with rfl | hi
+    · exact ⟨_, getI_append_same _ _, rfl⟩
+    · obtain ⟨y, hy, hyl⟩ := w.held i hi
+      exact ⟨y, by rw [getI_append_lt _ _ _ (getI_some_lt hy)]; exact hy, hyl⟩
+  · intro i y hy hyl
+    show refsTo s i + _ = _
+    rw [List.count_cons]
+    rcases getI_append_cases _ _ _ _ hy with ⟨hlt, hy'⟩ | ⟨rfl, rfl⟩
+    · have := w.counts i y hy' hyl
+      have : (s.inners.length == i) = false := by simp; omega
+      simp_all
+    · simp [hrefs0, hcount0]
+  · intro hu i y hy hyl
+    rcases getI_append_cases _ _ _ _ hy with ⟨_, hy'⟩ | ⟨rfl, rfl⟩
+    · exact w.uniq hu i y hy' hyl
+    · rfl
+  · intro i y hy hyl
+    rcases getI_append_cases _ _ _ _ hy with ⟨_, hy'⟩ | ⟨rfl, rfl⟩
+    · exact w.ceil i y hy' hyl
+    · exact Nat.zero_le _
+  · intro i y hy hyd
+    rcases getI_append_cases _ _ _ _ hy with ⟨_, hy'⟩ | ⟨rfl, rfl⟩
+    · exact w.dead i y hy' hyd
+    · cases hyd
+  · intro i y hy hyl
+    rcases getI_append_cases _ _ _ _ hy with ⟨_, hy'⟩ | ⟨rfl, rfl⟩
+    · exact w.datacap i y hy' hyl
+    · exact hc
+  · intro i y hy
+    rcases getI_append_cases _ _ _ _ hy with ⟨_, hy'⟩ | ⟨rfl, rfl⟩
+    · exact w.bufFresh i y hy'
+    · exact hb
+  · intro i j y z hy hz hij hyl hzl
+    rcases getI_append_cases _ _ _ _ hy with ⟨hi, hy'⟩ | ⟨rfl, rfl⟩
+    · rcases getI_append_cases _ _ _ _ hz with ⟨hj, hz'⟩ | ⟨rfl, rfl⟩
+      · exact w.bufDistinct i j y z hy' hz' hij hyl hzl
+      · exact hfresh i y hy' hyl
+    · rcases getI_append_cases _ _ _ _ hz with ⟨hj, hz'⟩ | ⟨rfl, rfl⟩
+      · exact fun h => hfresh j z hz' hzl h.symm
+      · exact absurd rfl hij
+
+/-- bumping the buffer-id counter keeps the invariant -/
+theorem wfx_bump {cfg : Cfg} {s : State} {ex : List Nat} (w : WfX cfg s ex) :
+    WfX cfg { s with nextBuf := s.nextBuf + 1 } ex :=
+  { handles := w.handles, held := w.held, counts := w.counts, uniq := w.uniq, ceil := w.ceil,
+    dead := w.dead, datacap := w.datacap,
+    bufFresh := fun i x hx => Nat.lt_succ_of_lt (w.bufFresh i x hx),
+    bufDistinct := w.bufDistinct }
+
+/-- `newHeap`: a fresh Vec in a fresh buffer, boxed; the new inner is held locally. -/
+theorem wfx_newHeap {cfg : Cfg} {s : State} {ex : List Nat} (w : WfX cfg s ex)
+    (data : List UInt8) (cap : Nat) (hc : data.length ≤ cap) :
+    WfX cfg (newHeap s data cap).1 (s.inners.length :: ex) ∧
+    (newHeap s data cap).2.1 = .heap s.inners.length s.nextBuf 0 data.length ∧
+    getI (newHeap s data cap).1 s.inners.length =
+      some { count := 0, data := data, cap := cap, buf := s.nextBuf, live := true } ∧
+    (∀ j, j < s.inners.length → getI (newHeap s data cap).1 j = getI s j) ∧
+    (newHeap s data cap).1.pool = s.pool ∧ (newHeap s data cap).1.srcs = s.srcs ∧
+    (newHeap s data cap).1.nextBuf = s.nextBuf + 1 := by
+  have wb := wfx_bump w
+  have hbox := wfx_boxVec wb data cap s.nextBuf hc (Nat.lt_succ_self _)
+    (by intro j y hy _ he; have := w.bufFresh j y hy; omega)
+  refine ⟨hbox, rfl, ?_, ?_, rfl, rfl, rfl⟩
+  · exact getI_append_same { s with nextBuf := s.nextBuf + 1 } _
+  · intro j hj; exact getI_append_lt { s with nextBuf := s.nextBuf + 1 } _ j hj
+
 end HipVerif.Core
